@@ -43,7 +43,11 @@ func classifyListenErr(err error, stopped bool) string {
 	return "other"
 }
 
-func runListen(n int, udpFail, tcpFail string, stopMs int) string {
+// listenCaps: max-inflight-requests of a case, chosen by its repetition number: small capacities put fewer units in the
+// shared semaphore than there are UDP read loops (each holds one while it waits for a packet)
+var listenCaps = []uint{8, 1, 2, 8, 3, 1}
+
+func runListen(n int, udpFail, tcpFail string, stopMs int, rep int) string {
 	addrs := make([]string, n)
 	var held []interface{ Close() error }
 	for i := 0; i < n; i++ {
@@ -80,7 +84,10 @@ func runListen(n int, udpFail, tcpFail string, stopMs int) string {
 		}
 	}
 	up := &scripted{pick: nil}
-	p := proxy.Proxy{Addrs: addrs, Upstream: up, MaxInflightRequests: 8}
+	if rep < 0 {
+		rep = -rep
+	}
+	p := proxy.Proxy{Addrs: addrs, Upstream: up, MaxInflightRequests: listenCaps[rep%len(listenCaps)]}
 	ctx, cancel := context.WithCancel(context.Background())
 	defer cancel()
 	done := make(chan error, 1)
@@ -302,7 +309,8 @@ func init() {
 			c.Stat("kind:burst-allfail")
 		}
 		one := func(n int, uf, tf string, stop, rep int) {
-			out := runListen(n, uf, tf, stop)
+			out := runListen(n, uf, tf, stop, rep)
+			c.Stat(fmt.Sprintf("max-inflight:%d", listenCaps[rep%len(listenCaps)]))
 			c.Emit(fmt.Sprintf("listen %d %s %s %d %d", n, uf, tf, stop, rep), out)
 			c.Stat("n:" + strconv.Itoa(n))
 			if stop >= 0 {
